@@ -23,6 +23,60 @@ def lvl_rank(order):
     return {n: i for i, n in enumerate(order)}
 
 
+def wave8_rules(ctx):
+    """obligations added after the eighth wave of seeded changes"""
+    ob = ctx.ob
+    tc = ctx.tc
+    obs = []
+    # (1) the conditional operator is right-associative: its condition is parsed one level tighter, both branches at its own level
+    pc = [f for f in tc.fns if f.name == "parse_cond" and f.base == "Expression" and f.body]
+    if pc:
+        f = pc[0]
+        st = [n for n in sir.walk(f.body) if n.get("k") == "struct" and n["segs"][-1] == "Cond"]
+        verdict, d = None, "the conditional is not built in a form this rule reads"
+        if st:
+            def origin(name, depth=0):
+                for l_ in sir.walk(f.body):
+                    if l_.get("k") == "local" and any(b == name for b, _ in sir.pat_bindings(l_["pat"])) and l_.get("init") is not None:
+                        for c_ in sir.walk(l_["init"]):
+                            if c_.get("k") == "call" and (sir.call_name(c_) or "").startswith("parse_"):
+                                return sir.call_name(c_)
+                return None
+            got = {}
+            for fl in st[0]["fields"]:
+                if fl["name"] in ("cond", "true_br", "false_br"):
+                    e_ = sir.strip_ref(fl["e"])
+                    got[fl["name"]] = origin(e_["segs"][0]) if e_.get("k") == "path" and len(e_["segs"]) == 1 else None
+            if all(got.get(k_) for k_ in ("cond", "true_br", "false_br")):
+                verdict = got["cond"] != "parse_cond" and got["true_br"] == "parse_cond" and got["false_br"] == "parse_cond"
+                d = "condition parsed by %s, true branch by %s, false branch by %s (a conditional nests in either branch without parentheses, never in the condition)" % (got["cond"], got["true_br"], got["false_br"])
+            loops = any(n.get("k") in ("while", "loop", "for") for n in sir.walk(f.body))
+            if verdict and loops:
+                verdict, d = False, d + "; built in a loop: left-associative"
+        obs.append(ob("C03.prec/parser/Cond", verdict, ctx.where(f), d, witness=None if verdict is not False else "a ? 1 : b ? 2 : 3 is read as (a ? 1 : b) ? 2 : 3"))
+    # (2) string constants inside expressions go through the escaper table (shared with C12 / C02)
+    from rules.c12 import find_escaper, check_escaper
+    ef = find_escaper(tc)
+    if ef is not None:
+        o, _ = check_escaper(ctx, ef, ctx.mir, "glass_easel_template_compiler", "C03.escaper")
+        obs += o
+    # (3) what the expression generator pastes into the script is classified text (shared with C02.holes)
+    from rules.c02 import holes_rule
+    o, _sites = holes_rule(ctx)
+    for x in o:
+        if re.search(r"C02\.holes/(Expression|PathSliceList|PathAnalysisState)::", x["key"]):
+            x = dict(x)
+            x["key"] = x["key"].replace("C02.holes", "C03.holes")
+            obs.append(x)
+    # (4) a free identifier denotes the innermost scope of that name (shared with C05.innermost)
+    from rules.c05 import check_innermost
+    for x in check_innermost(ctx):
+        x = dict(x)
+        x["key"] = x["key"].replace("C05.innermost", "C03.scope/innermost")
+        obs.append(x)
+    return obs
+
+
 def run(ctx):
     ob = ctx.ob
     tc = ctx.tc
@@ -293,6 +347,7 @@ def run(ctx):
         x = dict(x)
         x["key"] = x["key"].replace("C02.adjacent", "C03.adjacent").replace("C02.", "C03.adj.")
         obs.append(x)
+    obs += wave8_rules(ctx)
     return obs
 
 
